@@ -488,6 +488,6 @@ pub fn def() -> CheckDef {
                Anchor-deserialized value.  The usable-tick lookup is compared in C13.  Non-trivial = both Ok, delta != 0 and a tick (de)initialised.  The six routed \
                discriminators are exercised at instruction level by C01/C04/C05/C15.",
         assumptions: vec!["H1 re-export hook (required)", "structural fields stay inside what the program can write (usable ticks inside the supplied arrays, well-formed dynamic encoding)"],
-        subs: vec![sub("modify_liquidity", 1_000_000, 50_000_000, case_strategy, |c: &DiffCase, l: &mut Local| check_case(c, l))],
+        subs: vec![sub("modify_liquidity", 4_000_000, 200_000_000, case_strategy, |c: &DiffCase, l: &mut Local| check_case(c, l))],
     }
 }
